@@ -1,3 +1,3 @@
-from . import accessors_py, common_py, ctor_py, minimize_py, driver_py, entropy_py, filters_py, ops_py, popops_py, problem_py, stops_py
+from . import accessors_py, common_py, ctor_py, minimize_py, nbc_py, driver_py, entropy_py, filters_py, ops_py, popops_py, problem_py, stops_py
 
-FRONT_ENDS = {"common": common_py, "problem": problem_py, "entropy": entropy_py, "driver": driver_py, "stops": stops_py, "levellimit": filters_py.LEVELLIMIT, "demelimit": filters_py.DEMELIMIT, "farfilters": filters_py.FARFILTERS, "generators": filters_py.GENERATORS, "mechanism": filters_py.MECHANISM, "accessors": accessors_py, "popops": popops_py, "ops": ops_py, "ctor": ctor_py, "minimize": minimize_py, "order": ctor_py.ORDER}
+FRONT_ENDS = {"common": common_py, "problem": problem_py, "entropy": entropy_py, "driver": driver_py, "stops": stops_py, "levellimit": filters_py.LEVELLIMIT, "demelimit": filters_py.DEMELIMIT, "farfilters": filters_py.FARFILTERS, "generators": filters_py.GENERATORS, "mechanism": filters_py.MECHANISM, "accessors": accessors_py, "popops": popops_py, "ops": ops_py, "ctor": ctor_py, "minimize": minimize_py, "order": ctor_py.ORDER, "nbc": nbc_py}
